@@ -56,6 +56,16 @@ int main(int argc, char **argv) {
   auto listDir = [&](const std::string &d, const std::string &suffix) { std::vector<std::string> r; DIR *dir = opendir(d.c_str()); if (dir) { while (auto e = readdir(dir)) { std::string n = e->d_name; if (n.size() > suffix.size() && n.substr(n.size() - suffix.size()) == suffix) r.push_back(n); } closedir(dir); } std::sort(r.begin(), r.end()); return r; };
   for (auto &n : listDir(ctx.repo + "/tests/x", ".x")) { if (n == "xhexb.x" && !th) continue; items.push_back({"shipped:" + n, slurp(ctx.repo + "/tests/x/" + n), false, n == "xhexb.x" ? std::vector<std::string>{slurp(ctx.repo + "/tests/x/hello_putval.x")} : std::vector<std::string>{"", "\x05", "a\n"}}); }
   for (auto &n : listDir(ctx.repo + "/tests/asm", ".S")) { if (n == "xhexb.S") continue; items.push_back({"shipped:" + n, slurp(ctx.repo + "/tests/asm/" + n), true, {""}}); }
+  // far control flow: a DATA table of T words between the entry branch and the code, and a second block of code beyond a second table, so that BR,
+  // BRZ, BRN, LDAP/BR call and BRB return all span more than 2^16 / 2^18 / 2^19 bytes (binaries larger than anything the compiler emits)
+  for (uint32_t T : {1000u, 20000u, 70000u, 140000u}) {
+    std::string tab; tab.reserve(T * 8); for (uint32_t i = 0; i < T; i++) tab += "DATA 0\n";
+    std::string a = "BR start\nDATA 199000\n" + tab + "start\nLDAC 111\nLDBM 1\nSTAI 2\nLDAC 0\nLDAP ret\nBR far\nret\nLDAC 0\nBRZ back\nLDAC 9\nLDBM 1\nSTAI 2\nLDAC 0\nOPR SVC\n"
+                    "back\nLDAC 0\nLDBC 1\nOPR SUB\nBRN neg\nLDAC 8\nLDBM 1\nSTAI 2\nLDAC 0\nOPR SVC\n" + (T >= 20000 ? tab.substr(0, (T / 4) * 7) : std::string()) +
+                    "far\nLDBM 1\nSTAI 0\nLDAC 107\nLDBM 1\nSTAI 2\nLDAC 0\nSTAI 3\nLDAC 1\nOPR SVC\nLDBM 1\nLDBI 0\nOPR BRB\n"
+                    "neg\nLDAC 33\nLDBM 1\nSTAI 2\nLDAC 0\nSTAI 3\nLDAC 1\nOPR SVC\nLDAC 7\nLDBM 1\nSTAI 2\nLDAC 0\nOPR SVC\n";
+    items.push_back({"far:table" + std::to_string(T), a, true, {""}});
+  }
   size_t shipped = items.size();
   uint64_t want = th ? 120000 : 6000;
   for (uint64_t i = 0; i < C.total; i += std::max<uint64_t>(1, C.total / want)) { std::string sh, fam; std::string s = C.make(i, &sh, &fam); items.push_back({fam, s, false, {}}); }
